@@ -1,4 +1,4 @@
-CONSTANTS TB = 2  N = 6  FixPending = TRUE  FixSkipZero = TRUE  Family = "timers"  FixAudioSkip = TRUE
+CONSTANTS TB = 2  N = 6  FixPending = TRUE  FixSkipZero = TRUE  Family = "timers"  FixAudioSkip = TRUE  GuardSeesVectored = TRUE
 INIT Init
 NEXT Next
 INVARIANT SlicingInvariant
